@@ -1,0 +1,122 @@
+//! Verification-only introspection (`verif-hooks` feature). Additive; never compiled by default.
+use core::num::NonZeroU16;
+
+use embassy_time::Instant;
+
+use super::{Connection, Io, Session};
+
+/// Read-back of negotiated and local runtime values that have no public observable.
+#[derive(Debug, Copy, Clone, PartialEq, Eq)]
+pub struct VerifRuntime {
+    pub send_quota: u16,
+    pub max_send_quota: u16,
+    pub maximum_packet_size: Option<u32>,
+    pub max_qos: Option<u8>,
+    pub keepalive_ms: u64,
+    pub next_ping_ticks: Option<u64>,
+    pub ping_timeout_ticks: Option<u64>,
+    pub session_present: bool,
+    pub generation: u32,
+    pub next_packet_id: u16,
+    pub retained: usize,
+    pub pending_release: usize,
+    pub pending_control: usize,
+    pub tx_used: usize,
+    pub pending_inbound_qos2: usize,
+}
+
+impl<'buf> Session<'buf> {
+    /// Feed every field of the session that can influence future behaviour to `sink`.
+    /// Deadlines are emitted relative to `Instant::now()`.
+    pub fn verif_fingerprint(&self, sink: &mut dyn FnMut(&[u8])) {
+        let now = Instant::now().as_ticks();
+        let relative = |sink: &mut dyn FnMut(&[u8]), at: Option<Instant>| match at {
+            Some(at) => {
+                sink(&[1]);
+                sink(&(at.as_ticks() as i64).wrapping_sub(now as i64).to_le_bytes());
+            }
+            None => sink(&[0]),
+        };
+        sink(&[self.client_id.len() as u8]);
+        sink(self.client_id.as_bytes());
+        self.packet_reader.verif_fingerprint(sink);
+        sink(&self.data.verif_packet_id().to_le_bytes());
+        sink(&self.data.generation().to_le_bytes());
+        sink(&[self.data.session_present as u8]);
+        self.data.outbound.verif_fingerprint(sink);
+        sink(&[self.data.pending_server_packet_ids.len() as u8]);
+        for id in &self.data.pending_server_packet_ids {
+            sink(&id.to_le_bytes());
+        }
+        let runtime = &self.runtime;
+        sink(&[runtime.session_resumed as u8]);
+        sink(&runtime.keepalive_interval.as_ticks().to_le_bytes());
+        sink(&runtime.send_quota.to_le_bytes());
+        sink(&runtime.max_send_quota.to_le_bytes());
+        match runtime.maximum_packet_size {
+            Some(size) => {
+                sink(&[1]);
+                sink(&size.to_le_bytes());
+            }
+            None => sink(&[0]),
+        }
+        sink(&[runtime.max_qos.map(|qos| qos as u8 + 1).unwrap_or(0)]);
+        relative(sink, runtime.next_ping);
+        relative(sink, runtime.ping_timeout);
+        sink(&self.session_expiry_interval.to_le_bytes());
+        sink(&[self.downgrade_qos as u8]);
+    }
+
+    /// Overwrite transmit-arena bytes not covered by a retained packet and receive-buffer bytes
+    /// past the committed prefix with `value`.
+    pub fn verif_poison_dead_bytes(&mut self, value: u8) {
+        self.data.outbound.verif_poison_dead_bytes(value);
+        self.packet_reader.verif_poison_dead_bytes(value);
+    }
+
+    /// Move the packet identifier counter (`0` is mapped to `1`).
+    pub fn verif_set_next_packet_id(&mut self, packet_id: u16) {
+        self.data
+            .verif_set_packet_id(NonZeroU16::new(packet_id).unwrap_or(NonZeroU16::MIN));
+    }
+
+    /// Read back runtime values.
+    pub fn verif_runtime(&self) -> VerifRuntime {
+        let (retained, pending_release, pending_control, tx_used) =
+            self.data.outbound.verif_counts();
+        VerifRuntime {
+            send_quota: self.runtime.send_quota,
+            max_send_quota: self.runtime.max_send_quota,
+            maximum_packet_size: self.runtime.maximum_packet_size,
+            max_qos: self.runtime.max_qos.map(|qos| qos as u8),
+            keepalive_ms: self.runtime.keepalive_interval.as_millis(),
+            next_ping_ticks: self.runtime.next_ping.map(|at| at.as_ticks()),
+            ping_timeout_ticks: self.runtime.ping_timeout.map(|at| at.as_ticks()),
+            session_present: self.data.session_present,
+            generation: self.data.generation(),
+            next_packet_id: self.data.verif_packet_id(),
+            retained,
+            pending_release,
+            pending_control,
+            tx_used,
+            pending_inbound_qos2: self.data.pending_server_packet_ids.len(),
+        }
+    }
+
+    /// The client identifier the next CONNECT will carry.
+    pub fn verif_client_id(&self) -> &str {
+        self.client_id.as_str()
+    }
+}
+
+impl<'buf, IO: Io> Connection<'_, 'buf, IO> {
+    /// Mutable access to the borrowed session (poisoning, identifier setter).
+    pub fn verif_session_mut(&mut self) -> &mut Session<'buf> {
+        self.session
+    }
+
+    /// Shared access to the transport owned by this handle.
+    pub fn verif_io(&self) -> &IO {
+        &self.io
+    }
+}
